@@ -62,7 +62,11 @@ func spSnapshot(sp *saml2.SAMLServiceProvider) string {
 	if ks, ok := sp.SPKeyStore.(*RSAKeyStore); ok && ks.Raw != nil {
 		fmt.Fprintf(&b, "bare-key-precomputed=%v/%d;", ks.Raw.Precomputed.Dp != nil, len(ks.Raw.Precomputed.CRTValues))
 	}
-	fmt.Fprintf(&b, "clock=%d;", sp.Clock.Now().UnixNano())
+	if sp.Clock == nil {
+		b.WriteString("clock=<nil: system time>;")
+	} else {
+		fmt.Fprintf(&b, "clock=%d;", sp.Clock.Now().UnixNano())
+	}
 	return b.String()
 }
 
@@ -736,6 +740,32 @@ func runC17(c *mon.Ctx) {
 		}
 		if after := spSnapshot(sp); after != snap {
 			cs.Violation("configuration-changed", "configuration changed during the purity sequence")
+		}
+		// a provider without a clock (the documented way of asking for system time) validates from several goroutines:
+		// whatever the outcomes at today's date, the provider still has no clock object afterwards
+		{
+			savedClock := sp.Clock
+			sp.Clock = nil
+			before := spSnapshot(sp)
+			g2 := GenGenuine(r, w, GenOpts{MaxAssertions: 1, NoCR: true})
+			if doc, err := sim.BuildResponse(g2.Rec, g2.Style); err == nil {
+				enc := sim.Encode(doc, sim.RawLevel)
+				var wg sync.WaitGroup
+				for i := 0; i < 4; i++ {
+					wg.Add(1)
+					go func() {
+						defer wg.Done()
+						sp.ValidateEncodedResponse(enc)
+						sp.RetrieveAssertionInfo(enc)
+						sp.ValidateEncodedLogoutResponsePOST(enc)
+					}()
+				}
+				wg.Wait()
+				if after := spSnapshot(sp); after != before || sp.Clock != nil {
+					cs.Violation("configuration-changed", "validating on a provider without a clock changed its configuration:\n before %s\n after  %s", before, after)
+				}
+			}
+			sp.Clock = savedClock
 		}
 		cs.Nontrivial(fmt.Sprintf("purity/%d", k))
 		cs.Outcome("pure")
